@@ -9,6 +9,7 @@ import Ruint.Lemmas.Codec.TooLarge
 import Ruint.Lemmas.Codec.DerTrunc
 import Ruint.Lemmas.Codec.Serde
 import Ruint.Lemmas.Codec.Postgres
+import Ruint.Lemmas.Codec.TableTie
 /-!
 # C17 — decoders are total on untrusted input: no out-of-range value, canonical decoders reject non-minimal input
 
@@ -181,5 +182,12 @@ theorem pg_former_panics :
 /-! ## num-bigint -/
 theorem bigint_sound (bits : ℕ) (neg : Bool) (mag v : ℕ) (h : Fixed.fromBigInt bits neg mag = .ok v) :
     v < 2 ^ bits ∧ neg = false ∧ v = mag := Fixed.fromBigInt_sound bits neg mag v h
+
+/-- the accepted ranges of modes 1 and 2 and the 4-byte big-integer test of the SCALE compact decoder, re-extracted from
+    `src/support/scale.rs` on every run (`Gen/CodecTable.scaleDec`): the decoder interpreted with the extracted constants is
+    the model `decCompact` of the theorems above, for every width and every input. -/
+theorem gen_scale_decoder_table (bits : ℕ) (bs : List ℕ) :
+    Ruint.Codec.TableTie.decT Ruint.Gen.CodecTable.scaleDec bits bs = Ruint.Codec.Scale.decCompact bits bs :=
+  Ruint.Codec.TableTie.scale_dec_eq bits bs
 
 end Ruint.C17
